@@ -182,6 +182,8 @@ def _scan_param(index, fi, name, nested, depth):
                         state = "consumed"
                         consumed_by[0] = norm_text(st)[:80]
                     continue
+            if state == "consumed" and [u for u in uses if not is_len_or_none_test(fn, u)]:
+                return state, (st, f"`{norm_text(st)[:100]}` uses `{name}` after `{consumed_by[0]}` already traversed it: a one-shot iterable is exhausted by then")
             if assigns_name and (not uses or materialises(st.value, name, nested)):
                 state = "materialised"
                 continue
